@@ -18,7 +18,7 @@ UNIT_CONFIGS = {
     'path': [('', ('std',))],
     'build': [('-docs', ('std', 'docs')), ('-nodocs', ('std',))],
     'metatype': [('', ('std',))],
-    'alias': [('', ('std',))],
+    'alias': [('', ('std', 'bit-vec'))],    # the three impls of `mod bit_vec` exist only with the feature
 }
 
 # functions for which the end of the body is legitimately unreachable or where a canary at the end
@@ -104,7 +104,7 @@ PROPS = {
         title='One entry per distinct type: aliases share an id, distinct types never merge',
         level='proof',
         technique='Verus: interner duplicate-freeness + register_type "present => unchanged" postcondition + ghost evaluation counter; minimality clause of the trait contract and theorem_exactly_reachable (interned iff reachable from a registered root); generic identity obligations generated per TypeInfo impl (rustc-expanded)',
-        level_text='register_type ensures: identity already present => table and definitions unchanged and the existing id returned; a ghost counter asserted before every .type_info() call proves the definition is evaluated at most once per call and only for an identity absent on entry. For every TypeInfo impl of src/impls.rs (macro-generated ones included) a generic proof obligation is generated: transparent wrappers (Box, Rc, Arc, &, &mut, Vec, VecDeque, String, PhantomData) have the identity of their target for ALL type arguments incl. nested ones, every other impl has identity Self (with TypeId injectivity: never shares an id); MetaType::new is proved to store TypeId::of::<T::Identity>(). "Exactly one entry per identity REACHABLE from what was registered": theorem_exactly_reachable - in a registry rooted in the registered identities (history invariant, lemma_rooted_step) an identity is interned if and only if it is reachable from a root; no other entry is ever created (minimality clause of the trait contract, proved for the Registry functions and all 14 impls).',
+        level_text='register_type ensures: identity already present => table and definitions unchanged and the existing id returned; a ghost counter asserted before every .type_info() call proves the definition is evaluated at most once per call and only for an identity absent on entry. For every TypeInfo impl of src/impls.rs (macro-generated ones and the three of the nested bit-vec module included; the unit runs with features std + bit-vec) a generic proof obligation is generated: transparent wrappers (Box, Rc, Arc, &, &mut, Vec, VecDeque, String, PhantomData) have the identity of their target for ALL type arguments incl. nested ones, every other impl has identity Self (with TypeId injectivity: never shares an id); MetaType::new is proved to store TypeId::of::<T::Identity>(). "Exactly one entry per identity REACHABLE from what was registered": theorem_exactly_reachable - in a registry rooted in the registered identities (history invariant, lemma_rooted_step) an identity is interned if and only if it is reachable from a root; no other entry is ever created (minimality clause of the trait contract, proved for the Registry functions and all 14 impls).',
         level_note='TypeId::of injectivity is an assumption about std (A4). Derived impls (`type Identity = Self` emitted by the proc-macro) and user-written impls are outside the obligations.',
         verus=[('interner', INTERNER_ITEMS), ('registry', ['Registry::intern_type_id', 'Registry::register_type', 'Registry::register_types', 'Registry::map_into_portable', 'tmpl::lemma_one_entry_per_identity', 'tmpl::theorem_exactly_reachable', 'tmpl::lemma_rooted_*', 'tmpl::lemma_reach_*', 'tmpl::lemma_path_closed', 'tmpl::lemma_succ_closed', 'tmpl::lemma_img_mentions', 'tmpl::lemma_type_reaches']), ('registry_impls', IMPL_ITEMS),
                ('alias', ['TypeInfo for *', 'tmpl::identity::*']), ('metatype', ['MetaType::new', 'MetaType::type_id'])],
